@@ -27,7 +27,7 @@ WRAPS = ["none", "none", "none", "sub", "par", "saw"]
 
 
 def gen_cases(tier, seed):
-    reps = {"quick": 4, "thorough": 30}[tier]
+    reps = {"quick": 4, "thorough": 100}[tier]
     cases = []
     for name, e in POOL.items():
         for i in range(max(2, reps // e.slow)):
